@@ -27,6 +27,10 @@ pub fn generate(prop: &str, _run: u64, t: &mut Tape) -> Scenario {
         }
         "C04" => {
             let mut p = Profile::pipe();
+            if _run % 10 == 9 {
+                p.wide = true;
+                p.max_elems = p.max_elems.min(120);
+            }
             p.small_batches = true;
             p.w_loop = 8;
             p.w_zip = 4;
@@ -41,6 +45,14 @@ pub fn generate(prop: &str, _run: u64, t: &mut Tape) -> Scenario {
             5 => gen3::gen_join(t),
             6 => gen3::gen_fan(t),
             7 => gen3::gen_agg(t),
+            3 if _run % 16 == 3 => {
+                // "identical for every parallelism and number of hosts": clusters with more
+                // replicas per block than a channel holds batches
+                let mut p = Profile::pipe();
+                p.wide = true;
+                p.max_elems = 300;
+                gen::gen_pipe(t, p)
+            }
             _ => gen::gen_pipe(t, Profile::pipe()),
         },
         "C05" => match _run % 8 {
